@@ -172,3 +172,21 @@ package kv
 //@   modifies SpecDig
 //@   loop 0 modifies SpecDig
 //@   loop 1 modifies SpecDig
+
+//@ # ---- the gossip set (C06: "once gossip has quiesced ... every node holds the leaseholder's
+//@ # latest write for each key"): one operation per key, the one still being gossiped. Whatever
+//@ # order persisted operations and "recovered" marks arrive in, the entry of a key is never
+//@ # replaced by an older operation, and every operation applied is either stored or older than
+//@ # what is stored.
+//@ pure func newerOperation(a Operation, b Operation) bool
+//@ lemma newerOperationIsTheOrder(a Operation, b Operation)
+//@   ensures newerOperation(a, b) == gt(vlOp(a), vlOp(b))
+//@ func (s *kvStore) apply(ops []Operation)
+//@   use_lemma newerOperationIsTheOrder
+//@   requires s.data != nil
+//@   ensures forall k string :: old(__in(s.data, k)) ==> __in(s.data, k) && !gt(vlOp(old(s.data[k])), vlOp(s.data[k]))
+//@   ensures forall i int :: 0 <= i && i < len(ops) ==> __in(s.data, string(ops[i].Key)) && !gt(vlOp(ops[i]), vlOp(s.data[string(ops[i].Key)]))
+//@   modifies s.data
+//@   loop 0 modifies s.data
+//@   loop 0 invariant forall k string :: old(__in(s.data, k)) ==> __in(s.data, k) && !gt(vlOp(old(s.data[k])), vlOp(s.data[k]))
+//@   loop 0 invariant forall i int :: 0 <= i && i < __ri(0) ==> __in(s.data, string(ops[i].Key)) && !gt(vlOp(ops[i]), vlOp(s.data[string(ops[i].Key)]))
